@@ -17,12 +17,15 @@ import (
 )
 
 // C05 / C09 / C12: the receive loops of Client and Component on a stub transport fed with a real XML stream.
-type recvProp struct{ id string }
+type recvProp struct {
+	id        string
+	resumeObs string // observation of the `resume` op of the case being executed
+}
 
 func init() {
-	register("C05", recvProp{"C05"})
-	register("C09", recvProp{"C09"})
-	register("C12", recvProp{"C12"})
+	register("C05", recvProp{id: "C05"})
+	register("C09", recvProp{id: "C09"})
+	register("C12", recvProp{id: "C12"})
 }
 
 // chunkReader returns the stream in pseudo-random read sizes (segmentation of the byte stream).
@@ -131,19 +134,80 @@ func (rp recvProp) Exec(c Case) []string {
 	h := fnv.New64a()
 	h.Write([]byte(c.ID))
 	rng := rand.New(rand.NewSource(int64(h.Sum64())))
+	rp.resumeObs = "none"
+	rp2 := &rp
+	summary := rp2.run(c, component, smid, n0, rng)
 	obs := make([]string, 0, len(c.Ops))
 	for _, op := range c.Ops {
-		if op[0] != "finish" {
+		switch op[0] {
+		case "finish":
+			obs = append(obs, summary)
+		case "resume":
+			obs = append(obs, rp2.resumeObs)
+		default:
 			obs = append(obs, "-")
 		}
 	}
-	return append(obs, rp.run(c, component, smid, n0, rng))
+	return obs
+}
+
+// reconnect does what Client.Resume does after the Disconnected event - Client.connect on the kept Session - against
+// a scripted server that offers stream management and confirms the resumption, and reports the <resume/> request.
+func reconnect(client *xmpp.Client, cfg *xmpp.Config, sess *xmpp.Session, smid string) string {
+	script := "<?xml version='1.0'?><stream:stream xmlns='jabber:client' xmlns:stream='http://etherx.jabber.org/streams' version='1.0' id='s2'>" +
+		"<stream:features><mechanisms xmlns='urn:ietf:params:xml:ns:xmpp-sasl'><mechanism>PLAIN</mechanism></mechanisms><sm xmlns='urn:xmpp:sm:3'/></stream:features>" +
+		"<success xmlns='urn:ietf:params:xml:ns:xmpp-sasl'/>" +
+		"<stream:features><bind xmlns='urn:ietf:params:xml:ns:xmpp-bind'/><sm xmlns='urn:xmpp:sm:3'/></stream:features>" +
+		"<resumed xmlns='urn:xmpp:sm:3' previd='" + smid + "' h='0'/>" +
+		"<iq type='result' id='x'><bind xmlns='urn:ietf:params:xml:ns:xmpp-bind'><jid>u@localhost/r</jid></bind></iq>"
+	st2 := newStub(strings.NewReader(script))
+	if _, err := stanza.InitStream(st2.GetDecoder()); err != nil {
+		return "initstream-failed"
+	}
+	cfg.Insecure = true
+	xmpp.VerifSetSMResume(cfg, true)
+	xmpp.VerifSetTransport(client, st2)
+	xmpp.VerifSessionTransport(sess, st2)
+	client.SetHandler(nil)
+	done := make(chan string, 1)
+	go func() {
+		defer func() {
+			if r := recover(); r != nil {
+				done <- "panic"
+			}
+		}()
+		xmpp.VerifClientConnect(client)
+		done <- ""
+	}()
+	select {
+	case r := <-done:
+		if r != "" {
+			return r
+		}
+	case <-time.After(5 * time.Second):
+		return "hang"
+	}
+	for _, w := range st2.takeWrites() {
+		s := string(w)
+		if strings.HasPrefix(s, "<resume ") {
+			attr := func(name string) string {
+				i := strings.Index(s, name+`="`)
+				if i < 0 {
+					return "?"
+				}
+				j := strings.Index(s[i+len(name)+2:], `"`)
+				return s[i+len(name)+2 : i+len(name)+2+j]
+			}
+			return hx(attr("previd")) + ":" + attr("h")
+		}
+	}
+	return "none"
 }
 
 // run renders the history as one XML stream, feeds it to the real receive loop and summarises what happened.
-func (rp recvProp) run(c Case, component bool, smid string, n0 int, rng *rand.Rand) string {
+func (rp *recvProp) run(c Case, component bool, smid string, n0 int, rng *rand.Rand) string {
 	if who := c.Variant[0]; who == "client-tcp" || who == "client-ws" {
-		return rp.runReal(c, who, smid, n0, rng)
+		return (*rp).runReal(c, who, smid, n0, rng)
 	}
 	ns := "jabber:client"
 	if component {
@@ -212,6 +276,9 @@ func (rp recvProp) run(c Case, component bool, smid string, n0 int, rng *rand.Ra
 	done := make(chan bool, 1)
 	quit := make(chan struct{})
 	panicked := false
+	var rcClient *xmpp.Client
+	var rcCfg *xmpp.Config
+	var rcSess *xmpp.Session
 	if component {
 		comp, _ := xmpp.NewComponent(xmpp.ComponentOptions{Domain: "comp.localhost", Secret: "s"}, router, eh)
 		comp.SetHandler(handler)
@@ -228,6 +295,7 @@ func (rp recvProp) run(c Case, component bool, smid string, n0 int, rng *rand.Ra
 	} else {
 		cfg := &xmpp.Config{Jid: "u@localhost/r", Credential: xmpp.Password("p"), StreamManagementEnable: smid != ""}
 		client, err := newStubClient(cfg, router, eh, st)
+		rcClient, rcCfg = client, cfg
 		if err != nil {
 			return "newclient-failed"
 		}
@@ -239,6 +307,7 @@ func (rp recvProp) run(c Case, component bool, smid string, n0 int, rng *rand.Ra
 			sess.SMState = xmpp.SMState{Inbound: uint(n0)}
 		}
 		client.Session = sess
+		rcSess = sess
 		go func() {
 			defer func() {
 				if r := recover(); r != nil {
@@ -309,6 +378,11 @@ func (rp recvProp) run(c Case, component bool, smid string, n0 int, rng *rand.Ra
 	if leaked > 0 {
 		s += fmt.Sprintf(";leaked=%d", leaked)
 	}
+	if c.Variant[0] == "client-resume" && rcClient != nil {
+		mu.Unlock()
+		rp.resumeObs = reconnect(rcClient, rcCfg, rcSess, smid)
+		mu.Lock()
+	}
 	return s
 }
 
@@ -331,6 +405,11 @@ func (rp recvProp) Generate(rng *rand.Rand, tier string, st *Stats) []Case {
 	mk := func(who, smid string, n0 int, ops [][]string) {
 		ops = append(ops, []string{"finish"})
 		cases = append(cases, Case{ID: fmt.Sprintf("%s-%d", rp.id, n), Variant: []string{who, hx(smid), strconv.Itoa(n0)}, Ops: ops})
+		n++
+	}
+	mkResume := func(smid string, n0 int, ops [][]string) {
+		ops = append(ops, []string{"finish"}, []string{"resume"})
+		cases = append(cases, Case{ID: fmt.Sprintf("%s-%d", rp.id, n), Variant: []string{"client-resume", hx(smid), strconv.Itoa(n0)}, Ops: ops})
 		n++
 	}
 	idc := 0
@@ -400,6 +479,9 @@ func (rp recvProp) Generate(rng *rand.Rand, tier string, st *Stats) []Case {
 			if rp.id == "C09" && ex%5 == 0 {
 				mk("client", "sm-resumed", 7, seq(kinds)) // a resumed session continues from its count
 			}
+			if rp.id == "C09" && ex%7 == 0 {
+				mkResume("sm1", ex%3, seq(kinds)) // the count presented by the resumption request that follows
+			}
 			return
 		}
 		for _, a := range alpha {
@@ -446,6 +528,10 @@ func (rp recvProp) Generate(rng *rand.Rand, tier string, st *Stats) []Case {
 			smid, n0 = "sm-resumed", rng.Intn(1000)
 		}
 		mk(who, smid, n0, seq(kinds))
+		if rp.id == "C09" && i%3 == 0 {
+			mkResume(smid, n0, seq(kinds))
+			st.Inc("resume_after_history")
+		}
 	}
 
 	// the same loop over the real transports: XMPPTransport on a connection that goes half-open after the history
